@@ -2,6 +2,7 @@ package main
 
 import (
 	"fmt"
+	"time"
 	"go/constant"
 	"go/types"
 	"sync"
@@ -241,6 +242,8 @@ type Exec struct {
 	deferStack []*frame
 	cur        *frame
 	cstack     []*frame
+	lastRecovered *goPanic
+	pathDeadline  time.Time
 	stubs      map[string]*ssa.Function
 	stubOff    map[string]bool
 
@@ -269,7 +272,7 @@ func NewExec(prog *ssa.Program, solverBin string, timeoutMs int) *Exec {
 	return &Exec{prog: prog, tt: NewTermTable(), solver: NewSolver(solverBin, timeoutMs),
 		globals: map[*ssa.Global]*Value{}, pkgInit: map[*ssa.Package]bool{},
 		stubsHit: map[string]bool{}, funcsRun: map[*ssa.Function]bool{}, assumes: map[string]bool{},
-		methCache: map[methKey]*ssa.Function{}, maxSteps: 20_000_000, maxDec: 4000}
+		methCache: map[methKey]*ssa.Function{}, maxSteps: 20_000_000, maxDec: 600}
 }
 
 func (x *Exec) resetPath(decisions []uint64) {
@@ -280,6 +283,8 @@ func (x *Exec) resetPath(decisions []uint64) {
 	x.Steps = 0
 	x.bind, x.simpCache = nil, nil
 	x.deferStack, x.cur, x.cstack = nil, nil, x.cstack[:0]
+	x.lastRecovered = nil
+	x.pathDeadline = time.Now().Add(90 * time.Second)
 	x.violations, x.reaches, x.notes = nil, nil, nil
 	x.unknownQ = 0
 	x.nAssertUnsat, x.nAssertConst = 0, 0
@@ -505,6 +510,9 @@ func (x *Exec) branch(c *Term) bool {
 	if len(x.taken) >= x.maxDec {
 		panic(pathEnd{"bound-exceeded: decisions"})
 	}
+	if !x.pathDeadline.IsZero() && time.Now().After(x.pathDeadline) {
+		panic(pathEnd{"bound-exceeded: path time"})
+	}
 	nc := x.tt.Not(c)
 	rt, mt := x.feasible(c)
 	rf, mf := x.feasible(nc)
@@ -582,6 +590,24 @@ func (x *Exec) modelValue(t *Term) (uint64, bool) {
 	x.dpos++
 	x.taken = append(x.taken, v)
 	return v, true
+}
+
+// concretizeSmall enumerates the values 0..limit-1 of a symbolic size in increasing order (sizes beyond are
+// a stated bound: the path ends as bound-exceeded).
+func (x *Exec) concretizeSmall(i Int, what string, limit int) int64 {
+	if i.S == nil {
+		return i.conc()
+	}
+	t := x.simp(i.S)
+	if t.IsConst() {
+		return Int{W: i.W, Signed: i.Signed, C: t.K}.conc()
+	}
+	for v := 0; v < limit; v++ {
+		if x.branch(x.tt.Cmp(OpEq, t, x.tt.Const(t.W, uint64(v)))) {
+			return int64(v)
+		}
+	}
+	panic(pathEnd{fmt.Sprintf("bound-exceeded: symbolic %s above %d not explored", what, limit-1)})
 }
 
 // concretize forks over the feasible values of a symbolic integer and returns a concrete one.
@@ -868,6 +894,9 @@ func (fr *frame) run() Value {
 				}
 			case *ssa.Panic:
 				v := fr.op(ci.ops[0])
+				if lr := x.lastRecovered; lr != nil && isHarnessFn(fr.cf.fn) {
+					panic(*lr) // a harness re-raising what it recovered keeps the original message and site
+				}
 				panic(goPanic{msg: x.panicText(v), val: v, site: fr.cf.fn.String()})
 			default:
 				_ = in
@@ -1020,8 +1049,18 @@ func (fr *frame) exec(ci *cinstr) {
 	case *ssa.MakeMap:
 		fr.env[ci.dst] = Map{M: newMapObj()}
 	case *ssa.MakeSlice:
-		l := int(x.concretize(fr.op(o[0]).(Int), "make len", 64))
-		c := int(x.concretize(fr.op(o[1]).(Int), "make cap", 64))
+		li, cci := fr.op(o[0]).(Int), fr.op(o[1]).(Int)
+		if li.S != nil && x.branch(x.tt.Cmp(OpSlt, li.S, x.tt.Const(li.W, 0))) {
+			goPanicf("makeslice: len out of range")
+		}
+		if cci.S != nil && x.branch(x.tt.Cmp(OpSlt, cci.S, x.tt.Const(cci.W, 0))) {
+			goPanicf("makeslice: cap out of range")
+		}
+		if cci.S != nil && x.branch(x.tt.Cmp(OpSlt, x.tt.Const(cci.W, 1<<40), cci.S)) {
+			goPanicf("makeslice: cap out of range")
+		}
+		l := int(x.concretizeSmall(li, "make len", 9))
+		c := int(x.concretizeSmall(cci, "make cap", 9))
 		if l < 0 {
 			goPanicf("makeslice: len out of range")
 		}
@@ -1208,26 +1247,66 @@ func (x *Exec) strIndex(s Str, idx Int) Value {
 	return x.readIndexed(d, idx)
 }
 
-func (x *Exec) slice(base, lo, hi, max Value) Value {
+// sliceBounds resolves the (possibly symbolic) bounds of a slice expression: first one fork on
+// "bounds valid" against "out of range" (the Go panic), then the valid values are enumerated.
+func (x *Exec) sliceBounds(lo, hi, max Value, length, capacity int, isStr bool) (int, int, int) {
+	sym := false
+	for _, v := range []Value{lo, hi, max} {
+		if i, ok := v.(Int); ok && i.S != nil {
+			if t := x.simp(i.S); !t.IsConst() {
+				sym = true
+			}
+		}
+	}
+	limit := capacity
+	if isStr {
+		limit = length
+	}
+	if sym {
+		tt := x.tt
+		term := func(v Value, def int) *Term {
+			if v == nil {
+				return tt.Const(64, uint64(def))
+			}
+			i := v.(Int)
+			return tt.Resize(x.term(i), 64, i.Signed)
+		}
+		l, h := term(lo, 0), term(hi, length)
+		m := term(max, capacity)
+		valid := tt.And(tt.Cmp(OpSle, tt.Const(64, 0), l), tt.Cmp(OpSle, l, h))
+		if max != nil {
+			valid = tt.And(valid, tt.And(tt.Cmp(OpSle, h, m), tt.Cmp(OpSle, m, tt.Const(64, uint64(capacity)))))
+		} else {
+			valid = tt.And(valid, tt.Cmp(OpSle, h, tt.Const(64, uint64(limit))))
+		}
+		if !x.branch(valid) {
+			goPanicf("slice bounds out of range [symbolic] with length %d", limit)
+		}
+	}
 	geti := func(v Value, def int) int {
 		if v == nil {
 			return def
 		}
-		return int(x.concretize(v.(Int), "slice bound", 300))
+		return int(x.concretize(v.(Int), "slice bound", capacity+2))
 	}
+	l, h := geti(lo, 0), geti(hi, length)
+	m := geti(max, capacity)
+	if l < 0 || h < l || h > limit || m < h || m > capacity {
+		if isStr {
+			goPanicf("slice bounds out of range [%d:%d] with length %d", l, h, length)
+		}
+		goPanicf("slice bounds out of range [%d:%d] with capacity %d", l, h, capacity)
+	}
+	return l, h, m
+}
+
+func (x *Exec) slice(base, lo, hi, max Value) Value {
 	switch b := base.(type) {
 	case Str:
-		l, h := geti(lo, 0), geti(hi, b.Len())
-		if l < 0 || h < l || h > b.Len() {
-			goPanicf("slice bounds out of range [%d:%d] with length %d", l, h, b.Len())
-		}
+		l, h, _ := x.sliceBounds(lo, hi, nil, b.Len(), b.Len(), true)
 		return x.strSlice(b, l, h)
 	case Slice:
-		l, h := geti(lo, 0), geti(hi, len(b.Data))
-		m := geti(max, cap(b.Data))
-		if l < 0 || h < l || h > cap(b.Data) || m < h || m > cap(b.Data) {
-			goPanicf("slice bounds out of range [%d:%d] with capacity %d", l, h, cap(b.Data))
-		}
+		l, h, m := x.sliceBounds(lo, hi, max, len(b.Data), cap(b.Data), false)
 		if b.Nil && l == 0 && h == 0 {
 			return b
 		}
@@ -1237,11 +1316,7 @@ func (x *Exec) slice(base, lo, hi, max Value) Value {
 			goPanicf("invalid memory address or nil pointer dereference")
 		}
 		a := (*b.P).(Array)
-		l, h := geti(lo, 0), geti(hi, len(a))
-		m := geti(max, len(a))
-		if l < 0 || h < l || h > len(a) || m < h || m > len(a) {
-			goPanicf("slice bounds out of range [%d:%d] with length %d", l, h, len(a))
-		}
+		l, h, m := x.sliceBounds(lo, hi, max, len(a), len(a), false)
 		return Slice{Data: []Value(a)[l:h:m]}
 	}
 	panic(fmt.Sprintf("slice of %T", base))
@@ -1407,4 +1482,12 @@ func (x *Exec) where() string {
 		s += x.cstack[i].cf.fn.String()
 	}
 	return s
+}
+
+func isHarnessFn(fn *ssa.Function) bool {
+	n := fn.Name()
+	if fn.Parent() != nil {
+		return isHarnessFn(fn.Parent())
+	}
+	return len(n) > 5 && (n[:5] == "Verif" || n[:5] == "verif")
 }
